@@ -636,6 +636,18 @@ class SymBody:
         if isinstance(st, ast.Assert):
             p.events.append(('assert', self.S(st.test, env), st))
             return [p]
+        if isinstance(st, ast.For) and not st.orelse and \
+                isinstance(st.iter, (ast.Tuple, ast.List)) and \
+                len(st.iter.elts) == 1 and isinstance(st.target, ast.Name):
+            # one-trip loop (the normaliser's `for _once in (None,)` around a
+            # body that used `continue`, or a loop over a 1-tuple): a block
+            env[st.target.id] = self.S(st.iter.elts[0], env)
+            out = []
+            for q in self.block(st.body, [p]):
+                if q.end in ('continue', 'break'):
+                    q.end = 'fall'
+                out.append(q)
+            return out
         if isinstance(st, (ast.For, ast.While)):
             p.events.append(('loop', st, dict(env)))
             # havoc what the loop assigns
